@@ -51,12 +51,14 @@ static void radii(double d, int join, double tol, int64_t S, int64_t guard, int6
     rout = (int64_t)ceil(D * reach) + guard + 1;
 }
 
+static bool g_rectilinear = false;  // only axis-parallel shapes (slicing them is exact)
 static IPoly shape(Rng& g, int64_t span) {
     for (int tries = 0; tries < 50; tries++) {
         IPoly p;
         int64_t x = g.range(0, span), y = g.range(0, span);
         int64_t sz = std::max<int64_t>(6, g.range(span / 6 + 1, span / 2 + 6));
-        switch (g.below(7)) {
+        static const int RECT_KINDS[3] = {0, 4, 5};
+        switch (g_rectilinear ? RECT_KINDS[g.below(3)] : (int)g.below(7)) {
             case 0: p = g_rect(x, y, g.range(4, sz), g.range(4, sz)); break;
             case 1: p = g_convex(g, x, y, sz, 3 + (int)g.below(9)); break;
             case 2: p = g_star(g, x, y, std::max<int64_t>(3, sz / 3), sz, 5 + (int)g.below(10)); break;
@@ -65,7 +67,8 @@ static IPoly shape(Rng& g, int64_t span) {
             case 5: p = g_comb(g, x, y, 1 + (int)g.below(3), std::max<int64_t>(3, sz / 6), std::max<int64_t>(3, sz / 6), std::max<int64_t>(3, sz / 4), std::max<int64_t>(3, sz / 3)); break;
             default: p = g_saw(g, x, y, 1 + (int)g.below(3), 2 * std::max<int64_t>(2, sz / 6), std::max<int64_t>(3, sz / 4), std::max<int64_t>(3, sz / 4));
         }
-        if (p.size() >= 3 && is_simple(p)) {
+        // the property is about features wider than the grid (DESIGN: narrowest feature exceeds the grid)
+        if (p.size() >= 3 && is_simple(p) && feature_width_at_least(p, 2)) {
             random_orient(g, p);
             return p;
         }
@@ -298,8 +301,14 @@ static void gen_case(Out& out, Rng& g) {
     static const int64_t SPANS[4] = {30, 120, 1000, 20000};
     int64_t span = SPANS[g.below(S == 1000 ? 2 : 4)];
     std::string scen;
-    DGroup G = gen_group(g, S, span, scen);
     int join = (int)g.below(3);
+    bool uni = g.chance(22);
+    // the miter limit makes the result jump when a corner angle crosses it, and re-splitting moves
+    // vertices by the rounding of the cut points: for miter joins the union-independence cases use
+    // axis-parallel polygons, whose pieces are exact
+    g_rectilinear = uni && join == 0;
+    DGroup G = gen_group(g, S, span, scen);
+    g_rectilinear = false;
     double tol;
     if (join == 2) {
         static const double T[6] = {3, 6, 12, 32, 64, 1000};
@@ -318,7 +327,7 @@ static void gen_case(Out& out, Rng& g) {
     }
     double d = du / (double)S;
     if (g.coin()) d = -d;
-    if (g.chance(22)) run_uni(out, g, G, d, join, tol, S, scen);
+    if (uni) run_uni(out, g, G, d, join, tol, S, scen);
     else run_off(out, g, G, d, join, tol, S, g.coin(), scen);
 }
 
